@@ -6,6 +6,7 @@ import threading
 import time
 
 import gen_prov
+import go2lean_c18
 import vlib
 
 PID = "C18"
@@ -317,8 +318,16 @@ def tally(cases, model):
 
 
 def run(R):
+    try:
+        _run(R)
+    finally:
+        go2lean_c18.report(R)
+
+
+def _run(R):
     t0 = time.time()
     lean_ok = vlib.step_lean(R, PID)
+    go2lean_c18.step(R)
     t1 = time.time()
     exe = vlib.step_harness(R)
     t2 = time.time()
